@@ -376,7 +376,7 @@ class CustomState(BaseState):
                     "is |0⟩ attempted to be anniilated?"
                 )
             if operation.renormalize:
-                self.state = self.state / jnp.linalg.norm(self.state)
+                self.state = self.state / jnp.trace(self.state)
 
         C = Config()
         if C.contractions:
